@@ -171,9 +171,10 @@ def run_case(case):
                 do(op, 'cb%d' % i)
             d = spec['block'].get(ncalls[i])
             if d:
-                t_b = sim.now
+                rec_b = [sim.now, None]          # recorded when the slow callback starts: the run may end while it is still busy
+                busy.append(rec_b)
                 engine._vsleep(d)
-                busy.append((t_b, sim.now))
+                rec_b[1] = sim.now
             return ncalls[i] <= spec['n_true']
         return fn
 
@@ -194,6 +195,9 @@ def run_case(case):
         sim.at(t + 0.00037, inject)
         t += rng.choice([0.25, 0.5, 1.0])
     W.run(end)
+    for rec_b in busy:
+        if rec_b[1] is None:
+            rec_b[1] = end + 60.0          # still inside a slow callback when the run ended
 
     # ------------------------------------------------------------------ shadow model
     obs = dict(busy_intervals=0, timer_calls_checked=0, removals=0, ops_from_callback=0, subscriber_calls_checked=0, registrations=0, late_max_us=0)
